@@ -91,6 +91,21 @@ def Crystal.score (s : Crystal α) : Option α :=
   | .hard => s.scoreHard
   | .lj => s.scoreLJ
 
+/-- `f64::partial_cmp`: `None` exactly when one of the operands is not a number -/
+def fPartialCmp (x y : α) : Option Ordering :=
+  if x < y then some .lt else if x == y then some .eq else if y < x then some .gt else none
+
+/-- `PartialOrd::partial_cmp` / `Ord::cmp` of two states for a scoring function (`cmp` unwraps: `none` is
+the panic) -/
+def Crystal.cmpBy (sc : Crystal α → Option α) (a b : Crystal α) : Option Ordering :=
+  match sc a, sc b with
+  | some s, some o => fPartialCmp s o
+  | _, _ => none
+
+/-- `std::cmp::max(a, b)` on an `Ord` type: `a` only when `a.cmp(b)` is `Greater` -/
+def maxByCmp (cmp : Crystal α → Crystal α → Option Ordering) (a b : Crystal α) : Option (Crystal α) :=
+  (cmp a b).map fun o => if o = .gt then a else b
+
 /-- `PackedState::initialise` / `PotentialState::initialise` via `from_group` -/
 def Crystal.fromGroup (kind : Kind) (shape : Shape α) (name : List Char) (family : Family)
     (ops : List (Mat3 α)) : Crystal α :=
